@@ -275,6 +275,9 @@ type AllocWrap struct {
 	FailErr error
 	blocks  []*BlockWrap
 	gate    *Gate // point "alloc.newblock": passed before every NewBlock call
+	// Observer, when set, is called synchronously (inside the store's
+	// critical section) for every region handed out by NewBlock.
+	Observer func(id, offset int64)
 }
 
 func (a *AllocWrap) NewBlock() (local.Block, *pb.BlockLocation, error) {
@@ -304,6 +307,9 @@ func (a *AllocWrap) NewBlock() (local.Block, *pb.BlockLocation, error) {
 	a.blocks = append(a.blocks, w)
 	a.mu.Unlock()
 	a.log.Add("alloc.newblock", w.ID, off, "")
+	if a.Observer != nil {
+		a.Observer(w.ID, off)
+	}
 	return w, loc, nil
 }
 
